@@ -406,8 +406,8 @@ fn finish(
             if let Some(o) = short.as_object_mut() {
                 o.remove("input_hex");
             }
-            let s = short.to_string();
-            println!("  first witness: {}", &s[..s.len().min(600)]);
+            let s: String = short.to_string().chars().take(600).collect();
+            println!("  first witness: {}", s);
         }
         viol_list.push(json!({"class": class, "witnesses": details.len(), "replay": format!("{}/case.json", dir)}));
         if triage {
